@@ -24,6 +24,7 @@ func C08(ctx *core.Ctx, r *core.Report) {
 	// Find walks with requests marked as navigation; every read filter lets those through
 	c07NavigationExempt(ctx, r, registeredConstraints(ctx, r))
 	c08CursorClimbs(ctx, r)
+	c08FoundPathContinuesSelection(ctx, r)
 	c08NavigationBeforeState(ctx, r)
 	c08KeyTextVerbatim(ctx, r)
 }
